@@ -36,6 +36,26 @@ SUITES = {
                    "BoxedLocalRef/PtrLocalRef/PooledLocalRef::release_event", "LocalEventPool::rent"],
         stubs=[], replay_bin="kani/events_once_local",
     ),
+    "awaiter_set": dict(
+        kind="ext", dir="kani/awaiter_set", sources=["kani/awaiter_set/src/lib.rs"],
+        functions=["awaiter_set::AwaiterSet::{new,register,unregister,notify_one,advance_generation,notify_one_prior_generation,is_empty}",
+                   "awaiter_set::Awaiter::{new,is_registered,is_notified,take_notification}"],
+        stubs=[], replay_bin="kani/awaiter_set",
+    ),
+    "cbh_stats": dict(
+        kind="incrate", package="cbh_stats", prefix="folo_verif::",
+        sources=["kani/cbh_stats/harness.rs"],
+        env={"CARGO_PROFILE_DEV_DEBUG_ASSERTIONS": "false"},
+        functions=["cbh_stats::clamp_p_value", "exact_tail_p_values", "scaled_average_ranks", "same", "pettitt_rank_location", "mann_whitney_tie_term", "exact_mw_feasible"],
+        stubs=[], replay_bin="kani/cbh_stats/replay",
+    ),
+    "cbh_storage": dict(
+        kind="incrate", package="cbh_storage", prefix="folo_verif::",
+        sources=["kani/cbh_storage/harness.rs"],
+        env={"CARGO_PROFILE_DEV_DEBUG_ASSERTIONS": "false"},
+        functions=["cbh_storage::keys::{validate_key,is_plain_segment}", "std::path::Path::components (real)"],
+        stubs=["alloc::fmt::format -> String::new() on the error-message path"], replay_bin="kani/cbh_storage/replay",
+    ),
     "infinity_pool": dict(
         kind="incrate", package="infinity_pool", prefix="folo_verif::",
         sources=["kani/infinity_pool/harness.rs"],
